@@ -231,6 +231,17 @@ class Interp:
                 raise PyExc(e)
         raise Unsupported(f'no model for {getattr(fn, "__qualname__", fn)!r} on symbolic arguments')
 
+    def shadow_default(self, fn, i, d):
+        """mutable default values are evaluated once per function in Python; here: once per path (a private copy, so
+        that interpreted code cannot modify the real function object), shared by all calls on the path"""
+        if type(d) in (dict, list, set):
+            sh = self.__dict__.setdefault('default_shadow', {})
+            if (fn, i) not in sh:
+                import copy
+                sh[(fn, i)] = copy.deepcopy(d)
+            return sh[(fn, i)]
+        return d
+
     def call_interp(self, fn, args, kw):
         return self.call_node(self.get_ast(fn), fn, args, kw)
 
@@ -242,7 +253,7 @@ class Interp:
             defaults = [parent.ev(d) for d in a.defaults]
             kwdefaults = {k.arg: parent.ev(d) for k, d in zip(a.kwonlyargs, a.kw_defaults) if d is not None}
         else:
-            defaults = list(fn.__defaults__ or ())
+            defaults = [self.shadow_default(fn, i, d) for i, d in enumerate(fn.__defaults__ or ())]
             kwdefaults = dict(fn.__kwdefaults__ or {})
         args = list(args)
         kw = dict(kw)
